@@ -109,3 +109,83 @@ pub fn inputs(seed: u64, open: &[String]) -> impl Iterator<Item = Value> {
     } } } }
     out.into_iter()
 }
+
+// ------------------------------------------------------------------------------------------------------------------
+// c17_schema: one rich dynamic schema (every kind of type) exported under many option sets, re-parsed, and compared with the record of
+// what was put in: kinds, descriptions, fields / arguments with their types in declaration order (or sorted), enum values with their
+// own descriptions / deprecations, union members, implemented interfaces; every type defined exactly once (not merely extended).
+pub fn schema_case(args: &Value) -> Outcome {
+    use async_graphql::dynamic::{Enum, EnumItem, Interface, InterfaceField, Union};
+    let nf = |n: &str, t: TypeRef| Field::new(n.to_string(), t, |_| FieldFuture::new(async { Ok(None::<GqlValue>) }));
+    let color = Enum::new("Color").description("All the colours")
+        .item(EnumItem::new("RED").description("warm")).item(EnumItem::new("GREEN").description("calm").deprecation(Some("use TEAL"))).item(EnumItem::new("BLUE"));
+    let node = Interface::new("Node").description("has an id").field(InterfaceField::new("id", TypeRef::named_nn(TypeRef::ID)).description("the id"));
+    let named = Interface::new("Named").implement("Node").field(InterfaceField::new("id", TypeRef::named_nn(TypeRef::ID))).field(InterfaceField::new("name", TypeRef::named(TypeRef::STRING)).argument(InputValue::new("upper", TypeRef::named(TypeRef::BOOLEAN))));
+    let user_desc = args["user_desc"].as_bool().unwrap_or(true);
+    let mut user = Object::new("User"); if user_desc { user = user.description("a user"); }
+    let user = user.implement("Node").implement("Named").extends()
+        .field(nf("id", TypeRef::named_nn(TypeRef::ID))).field(nf("name", TypeRef::named(TypeRef::STRING)).argument(InputValue::new("upper", TypeRef::named(TypeRef::BOOLEAN))))
+        .field(nf("tags", TypeRef::named_nn_list_nn(TypeRef::STRING))).field(nf("matrix", TypeRef::List(Box::new(TypeRef::named_nn_list(TypeRef::INT)))))
+        .field(nf("favourite", TypeRef::named("Color")).argument(InputValue::new("z", TypeRef::named(TypeRef::INT))).argument(InputValue::new("a", TypeRef::named_nn_list(TypeRef::INT)).default_value(GqlValue::List(vec![GqlValue::from(1)]))));
+    let post = Object::new("Post").implement("Node").field(nf("id", TypeRef::named_nn(TypeRef::ID))).field(nf("author", TypeRef::named_nn("User")));
+    let result = Union::new("SearchResult").description("anything").possible_type("Post").possible_type("User");
+    let filter = InputObject::new("Filter").description("a filter").field(InputValue::new("color", TypeRef::named("Color")).default_value(GqlValue::Enum(async_graphql::Name::new("RED")))).field(InputValue::new("ids", TypeRef::named_nn_list(TypeRef::ID)));
+    let query = Object::new("Query").field(nf("search", TypeRef::named_nn_list_nn("SearchResult")).argument(InputValue::new("filter", TypeRef::named("Filter"))))
+        .field(nf("node", TypeRef::named("Node")).argument(InputValue::new("id", TypeRef::named_nn(TypeRef::ID)))).field(nf("colors", TypeRef::named_nn_list_nn("Color")));
+    let schema = Schema::build("Query", None, None).register(color).register(node).register(named).register(user).register(post).register(result).register(filter).register(query).finish().unwrap();
+    let mut o = SDLExportOptions::new();
+    let has = |k: &str| args["opts"].as_array().map(|a| a.iter().any(|x| x == k)).unwrap_or(false);
+    if has("federation") { o = o.federation(); } if has("sorted_fields") { o = o.sorted_fields(); } if has("sorted_arguments") { o = o.sorted_arguments(); } if has("sorted_enum_items") { o = o.sorted_enum_items(); }
+    if has("single_line") { o = o.prefer_single_line_descriptions(); } if has("space") { o = o.use_space_ident(); } if has("specified_by") { o = o.include_specified_by(); }
+    let text = schema.sdl_with_options(o);
+    let doc = match parse_schema(&text) { Ok(d) => d, Err(e) => return Outcome { holds: false, observed: format!("exported SDL does not parse: {} -- {:?}", e, text), expected: "valid SDL".into() } };
+    fn ty(t: &Type) -> String { t.to_string() }
+    let desc = |d: &Option<async_graphql::Positioned<String>>| d.as_ref().map(|x| x.node.clone());
+    let mut got: Vec<String> = Vec::new();
+    for def in &doc.definitions { if let TypeSystemDefinition::Type(t) = def {
+        let n = t.node.name.node.to_string(); if n.starts_with('_') { continue; }
+        let head = format!("{}{}", if t.node.extend { "EXTEND " } else { "" }, n);
+        match &t.node.kind {
+            TypeKind::Enum(e) => got.push(format!("enum {} desc={:?} values=[{}]", head, desc(&t.node.description), e.values.iter().map(|v| format!("{}:{:?}:{:?}", v.node.value.node, desc(&v.node.description), reason_of(&v.node.directives))).collect::<Vec<_>>().join(","))),
+            TypeKind::Union(u) => got.push(format!("union {} desc={:?} members=[{}]", head, desc(&t.node.description), u.members.iter().map(|m| m.node.to_string()).collect::<Vec<_>>().join(","))),
+            TypeKind::Object(ob) => got.push(format!("type {} desc={:?} implements=[{}] fields=[{}]", head, desc(&t.node.description), ob.implements.iter().map(|m| m.node.to_string()).collect::<Vec<_>>().join(","),
+                ob.fields.iter().filter(|f| !f.node.name.node.starts_with('_')).map(|f| format!("{}({}):{}", f.node.name.node, f.node.arguments.iter().map(|a| format!("{}:{}={:?}", a.node.name.node, ty(&a.node.ty.node), a.node.default_value.as_ref().map(|d| d.node.to_string()))).collect::<Vec<_>>().join(","), ty(&f.node.ty.node))).collect::<Vec<_>>().join(";"))),
+            TypeKind::Interface(ob) => got.push(format!("interface {} desc={:?} implements=[{}] fields=[{}]", head, desc(&t.node.description), ob.implements.iter().map(|m| m.node.to_string()).collect::<Vec<_>>().join(","),
+                ob.fields.iter().map(|f| format!("{}({}):{}:{:?}", f.node.name.node, f.node.arguments.iter().map(|a| format!("{}:{}", a.node.name.node, ty(&a.node.ty.node))).collect::<Vec<_>>().join(","), ty(&f.node.ty.node), desc(&f.node.description))).collect::<Vec<_>>().join(";"))),
+            TypeKind::InputObject(ob) => got.push(format!("input {} desc={:?} fields=[{}]", head, desc(&t.node.description), ob.fields.iter().map(|f| format!("{}:{}={:?}", f.node.name.node, ty(&f.node.ty.node), f.node.default_value.as_ref().map(|d| d.node.to_string()))).collect::<Vec<_>>().join(";"))),
+            TypeKind::Scalar => got.push(format!("scalar {}", head)),
+        } } }
+    got.sort();
+    // the record of what was put in (fields / arguments / enum items sorted when the option asks for it)
+    let srt = |mut v: Vec<&str>, on: bool| -> String { if on { v.sort(); } v.join(";") };
+    let srtc = |mut v: Vec<&str>, on: bool| -> String { if on { v.sort(); } v.join(",") };
+    let fav_args = if has("sorted_arguments") { "a:[Int!]=Some(\"[1]\"),z:Int=None" } else { "z:Int=None,a:[Int!]=Some(\"[1]\")" };
+    let user_fields: Vec<String> = vec!["id():ID!".into(), "name(upper:Boolean=None):String".into(), "tags():[String!]!".into(), "matrix():[[Int!]]".into(), format!("favourite({}):Color", fav_args)];
+    let user_fields_s = { let mut v: Vec<&str> = user_fields.iter().map(|x| x.as_str()).collect(); if has("sorted_fields") { v.sort(); } v.join(";") };
+    let ext = if has("federation") { "EXTEND " } else { "" };
+    let mut exp: Vec<String> = vec![
+        format!("enum Color desc=Some(\"All the colours\") values=[{}]", srtc(vec!["RED:Some(\"warm\"):None", "GREEN:Some(\"calm\"):Some(Some(\"use TEAL\"))", "BLUE:None:None"], has("sorted_enum_items"))),
+        "interface Node desc=Some(\"has an id\") implements=[] fields=[id():ID!:Some(\"the id\")]".to_string(),
+        format!("interface Named desc=None implements=[Node] fields=[{}]", "id():ID!:None;name(upper:Boolean):String:None"),
+        format!("type {}User desc={} implements=[Node,Named] fields=[{}]", ext, if user_desc { "Some(\"a user\")" } else { "None" }, user_fields_s),
+        format!("type Post desc=None implements=[Node] fields=[{}]", srt(vec!["id():ID!", "author():User!"], has("sorted_fields"))),
+        "union SearchResult desc=Some(\"anything\") members=[Post,User]".to_string(),
+        format!("input Filter desc=Some(\"a filter\") fields=[{}]", { let mut v = vec!["color:Color=Some(\"RED\")", "ids:[ID!]=None"]; if has("sorted_fields") { v.sort(); } v.join(";") }),
+        format!("type Query desc=None implements=[] fields=[{}]", srt(vec!["search(filter:Filter=None):[SearchResult!]!", "node(id:ID!=None):Node", "colors():[Color!]!"], has("sorted_fields"))),
+    ];
+    exp.sort();
+    let missing: Vec<&String> = exp.iter().filter(|e| !got.contains(e)).collect();
+    let extra: Vec<&String> = got.iter().filter(|g| !exp.contains(g)).collect();
+    Outcome { holds: missing.is_empty() && extra.is_empty(), observed: if missing.is_empty() && extra.is_empty() { format!("{} type definitions read back exactly", got.len()) } else { format!("SDL says {:?} where the schema has {:?}", extra, missing) }, expected: "the exported SDL describes exactly the schema".into() }
+}
+pub fn schema_inputs(seed: u64, open: &[String]) -> impl Iterator<Item = Value> {
+    // region of the open finding: a described `extends` type exported with the federation option
+    let no_desc_on_extend = open.iter().any(|x| x == "C17-description-before-extend-type");
+    let all = ["federation", "sorted_fields", "sorted_arguments", "sorted_enum_items", "single_line", "space", "specified_by"];
+    let mk = |v: Vec<&str>| { let fed = v.contains(&"federation"); json!({"opts": v, "user_desc": !(fed && no_desc_on_extend)}) };
+    let mut out = vec![mk(vec![])];
+    for o in all { out.push(mk(vec![o])); }
+    let mut r = Rng(seed);
+    for _ in 0..12 { let v: Vec<&str> = all.iter().filter(|_| r.below(2) == 0).cloned().collect(); out.push(mk(v)); }
+    out.into_iter()
+}
